@@ -12,7 +12,7 @@ pub const REQUIRED: &[&str] = &[
     "format.jaspar", "format.jaspar16", "format.transfac", "format.uniprobe", "alphabet.protein", "records.1",
     "records>100", "file>64KiB", "schedule.cursor", "schedule.capacity1", "schedule.one_byte_reads",
     "schedule.interrupts", "schedule.whole_file", "corpus.JASPAR2024.pwm", "corpus.prodoric.transfac",
-    "corpus.test_files", "field.description_absent", "field.description_present", "columns.shuffled_or_partial",
+    "corpus.test_files", "field.description_absent", "field.description_present", "columns.shuffled_or_partial", "width>=100",
 ];
 
 fn check_file(case: u64, rng: &mut Rng, rep: &mut Report, format: Format, protein: bool, text: &[u8], expect: &[Rec], label: &str) {
@@ -102,6 +102,9 @@ fn gen_case(case: u64, rng: &mut Rng, rep: &mut Report, cfg: &Config) {
     }
     if f.text.len() > 65536 {
         rep.cover("file>64KiB");
+    }
+    if f.records.iter().any(|r| r.cells.len() >= 100) {
+        rep.cover("width>=100");
     }
     if f.records.iter().any(|r| r.description.is_none()) {
         rep.cover("field.description_absent");
